@@ -33,7 +33,7 @@ ASSUMPTIONS = [
     'part of the property)',
 ]
 FLOORS = {'probes': 2000, 'name_probes': 20,
-          'probes_after_reassignment': 500, 'derived_models': 5,
+          'probes_after_reassignment': 500, 'derived_models': 5, 'narrow_extracts': 2,
           'reassignments_xlcell': 10,
           'failing_evaluations_before_reassignment': 20}
 ANCHOR_FUNCS = {
@@ -410,8 +410,25 @@ def run(ctx):
                 model = build.model_from_dict(wb, default_sheet=sheets[0])
             prov = rng.choice(['compiled', 'compiled', 'extracted', 'json',
                                'deepcopy'])
-            model = build.derive(model, prov, os.path.join(
-                outdir, f's{ctx.shard}.json'))
+            if (b + ctx.shard) % 6 == 5:
+                prov = 'extracted-narrow'
+            if prov == 'extracted-narrow':
+                # a sub-model: only some probes in focus; what they read -
+                # cells, rectangles, members that are formulas themselves and
+                # THEIR precedents - has to come along
+                from xlcalculator import ModelCompiler
+                keep = [p for p in probes
+                        if p.kind.startswith('rect-of-formulas')
+                        or p.kind in ('chain', 'after-cross-sheet')]
+                keep += rng.sample(probes, min(len(probes), 12))
+                probes = list({id(p): p for p in keep}.values())
+                failing = []
+                model = ModelCompiler.extract(
+                    model, focus=[build.addr(p.key) for p in probes])
+                ctx.event('narrow_extracts')
+            else:
+                model = build.derive(model, prov, os.path.join(
+                    outdir, f's{ctx.shard}.json'))
             if prov != 'compiled':
                 ctx.event('derived_models')
             prov_note = '' if prov == 'compiled' else ', ' + prov + ' model'
@@ -512,7 +529,7 @@ def run(ctx):
                              for k, r in zip(changed, routes)))
         # names passed to evaluate()
         for nm, target in names.items():
-            if target[0] != 'ref':
+            if target[0] != 'ref' or nm not in model.defined_names:
                 continue
             got = subject.outcome_of(lambda: ev.evaluate(nm))
             want = ('value', ref.to_norm(wb.eval(target, None)))
